@@ -151,6 +151,23 @@ func famMesh(w *World) {
 					s.LateRead = w.Grid
 				}
 			}
+			if scnChance(1, 6) {
+				// a caller that is slow to collect its (many-frame) response: busy between writing
+				// the request and reading, or between pieces. The frames pile up in the call's
+				// receive buffer; other calls on the same connection must not suffer
+				if scnChance(1, 2) {
+					s.ReadPause = time.Duration(1+scn(150)) * w.Grid
+				} else {
+					s.ChunkPause = time.Duration(1+scn(20)) * w.Grid
+				}
+				if s.Mode == "echo" {
+					if scnChance(1, 2) {
+						s.Mode = "chunky"
+					}
+					s.Rs2, s.Rs3 = scn(3000), 100000+drawSize(300000)
+				}
+				w.probe("mesh.busy-caller")
+			}
 			if faulty && scnChance(1, 6) {
 				s.CancelAfter = time.Duration(scn(40)) * w.Grid
 			}
